@@ -92,9 +92,10 @@ def gen_case(rng, with_ignore):
     # avoid nested roots (a path under two roots is listed twice by design of a multi-root walk);
     # sibling roots whose names merely share a textual prefix (sub, sub2) are kept
     keep = []
+    nested = rng.random() < 0.12       # K33: a root inside another root
     for r in roots:
         a = r[0] + (r[1][1],)
-        if not any(a[:len(b)] == b or b[:len(a)] == a for b in (k[0] + (k[1][1],) for k in keep)):
+        if nested or not any(a[:len(b)] == b or b[:len(a)] == a for b in (k[0] + (k[1][1],) for k in keep)):
             keep.append(r)
     roots = keep
     p = dict(file_type=rng.choice(["any", "directory", "file", "file", "link"]), hidden=rng.random() < 0.4, recurse=rng.random() < 0.6,
@@ -182,6 +183,15 @@ def c16(run, replay=None):
             got = [x for x in got if x not in links]
             model = [x for x in model if x not in links]
         dup = len(got) != len(set(got))
+        if dup and sorted(got) == model:
+            # the mirror walks every root like the code does; the PROPERTY says each path exactly once
+            rts = [tuple(x.split("/")) for x in desc["roots"]]
+            if any(a != b and a[:len(b)] == b for a in rts for b in rts) or len(set(rts)) != len(rts):
+                run.known("K33-nested-roots-listed-twice", "")
+            else:
+                run.violation("find lists a path more than once although no root lies inside another: %r" % sorted(x for x in set(got) if got.count(x) > 1),
+                              dict(desc, implementation=io))
+            continue
         if sorted(got) != model:
             missing = sorted(set(model) - set(got))
             extra = sorted(set(got) - set(model))
@@ -194,6 +204,23 @@ def c16(run, replay=None):
             else:
                 run.violation("find result differs from the entries that satisfy all criteria: missing %r, unexpected %r" % (missing, extra),
                               dict(desc, implementation=io, expected=model))
+    # K34: the walker skips the file its own standard output is redirected to (ignore::WalkBuilder::skip_stdout)
+    import subprocess
+    kroot = os.path.join(FIND_ROOT, "k34")
+    shutil.rmtree(kroot, ignore_errors=True)
+    os.makedirs(os.path.join(kroot, "t"))
+    open(os.path.join(kroot, "t", "a.txt"), "w").write("x")
+    sp = os.path.join(kroot, "s.rh")
+    open(sp, "w").write("#!/usr/bin/env rash\n- find:\n    paths: %s/t\n  register: r\n- debug:\n    msg: \"{{ r.extra | sort | join(' ') }}\"\n" % kroot)
+    with open(os.path.join(kroot, "t", "out.log"), "w") as fh:
+        pr = subprocess.run([C.RASH, "--output", "raw", sp], stdout=fh, stderr=subprocess.PIPE, timeout=30)
+    listed = open(os.path.join(kroot, "t", "out.log")).read().split()
+    want = sorted(["%s/t/a.txt" % kroot, "%s/t/out.log" % kroot])
+    if pr.returncode != 0 or sorted(x for x in listed if x.startswith(kroot)) != want:
+        if sorted(x for x in listed if x.startswith(kroot)) == ["%s/t/a.txt" % kroot]:
+            run.known("K34-stdout-file-skipped", "")
+        else:
+            run.violation("find with stdout redirected into the searched directory: listed %r, expected %r (rc %r)" % (listed, want, pr.returncode), dict(script=open(sp).read(), listed=listed))
     # relative roots are rejected
     rel = C.run_harness("find", [dict(world=world_nodes(('d', 'r', [('f', 'a', 1)])), params="paths: r\n", lookup=False),
                                  dict(world=world_nodes(('d', 'r', [('f', 'a', 1)])), params="paths: [ROOT/r, ./r]\n", lookup=False)], prepare=prep)
